@@ -131,10 +131,37 @@ def offlattice_part(ck, tier):
         T = float(rng.choice([1.0, 2.0, 3.5]))
         start = rng.uniform(-1.5, 1.5, size=n)
         eps = float(rng.uniform(0.02, 0.1))
-        ch = HamiltonianChain(posterior=q, start=start, grad=q.grad, epsilon=eps, temperature=T, display_progress=False, **kw)
+        # every other case the user's gradient function hands out an array it KEEPS (a memoised evaluation): the sampler must not write into it
+        memo = {}
+
+        def kept_grad(x, memo=memo, q=q):
+            k = np.asarray(x, dtype=float).tobytes()
+            if k not in memo:
+                memo[k] = (np.asarray(q.grad(x), dtype=float), np.array(q.grad(x), dtype=float))
+            return memo[k][0]
+        grad_fn = kept_grad if case % 2 else q.grad
+        ch = HamiltonianChain(posterior=q, start=start, grad=grad_fn, epsilon=eps, temperature=T, display_progress=False, **kw)
+        ch_built = ch
+        if case % 4 >= 2:
+            # ... and every other pair of cases the trajectory is run by a sampler that was saved and loaded again
+            fname = os.path.join(scratch("c07sv_"), "h.npz")
+            ch.save(fname)
+            ch = HamiltonianChain.load(fname, posterior=q, grad=grad_fn)
         r0 = ch.mass.sample_momentum(np.random.default_rng(int(rng.integers(0, 2 ** 31))))
         ns = int(rng.integers(1, 12))
         t1, r1 = ch.run_leapfrog(start.copy(), np.array(r0, dtype=float).copy(), ns)
+        # the energy is that of the temperature the sampler was GIVEN, and a reloaded sampler integrates the same trajectory
+        h_want = float(ch_built.kinetic_energy(np.asarray(r0, dtype=float))) - q(start) / T
+        h_got = float(ch.hamiltonian(start, np.asarray(r0, dtype=float)))
+        if abs(h_got - h_want) > 1e-10 * (1.0 + abs(h_want)):
+            ck.violation("hamiltonian = 1/2 r' M^-1 r - logp(t)/T for the temperature the sampler was constructed with (also after save / load)",
+                         {"case": case, "temperature": T, "reloaded": ch is not ch_built, "want": h_want, "got": h_got}, site="HamiltonianChain.hamiltonian:temperature")
+        if ch is not ch_built:
+            t1b, r1b = ch_built.run_leapfrog(start.copy(), np.array(r0, dtype=float).copy(), ns)
+            if not (np.array_equal(np.asarray(t1b), np.asarray(t1)) and np.array_equal(np.asarray(r1b), np.asarray(r1))):
+                ck.violation("a saved and reloaded sampler integrates the same trajectory as the sampler it was saved from",
+                             {"case": case, "temperature": T, "mass_kind": kind, "end_original": np.asarray(t1b), "end_reloaded": np.asarray(t1)},
+                             site="HamiltonianChain.load:trajectory")
         t2, r2 = ch.run_leapfrog(np.array(t1).copy(), -np.array(r1), ns)
         scale = 1.0 + np.max(np.abs(start)) + np.max(np.abs(r0))
         rev_err = max(np.max(np.abs(t2 - start)), np.max(np.abs(-np.asarray(r2) - r0))) / scale
@@ -145,6 +172,10 @@ def offlattice_part(ck, tier):
         t1h, r1h = ch.run_leapfrog(start.copy(), np.array(r0, dtype=float).copy(), 2 * ns)
         e2 = abs(ch.hamiltonian(np.asarray(t1h), np.asarray(r1h)) - h0)
         ratio_ok = bounded or e1 < 1e-9 or (e2 <= e1 * 0.45)
+        dirty = [k for k, (held, ref) in memo.items() if not np.array_equal(held, ref)]
+        if dirty:
+            ck.violation("arrays returned by the user's gradient function are left unchanged by the sampler",
+                         {"case": case, "mass_kind": kind, "temperature": T, "gradient_arrays_modified": len(dirty)}, site="HamiltonianChain.run_leapfrog:callback-ownership")
         events.append({"ev": "Orbit", "case": case, "n": n, "mass": kind, "bounded": bounded,
                        "rev_err_e12": int(min(rev_err * 1e12, 2 ** 30)), "ratio_ok": bool(ratio_ok),
                        "e1_e12": int(min(e1 * 1e12, 2 ** 30)), "e2_e12": int(min(e2 * 1e12, 2 ** 30))})
@@ -199,6 +230,9 @@ def fd_part(ck, tier):
             lo = t - np.abs(t) * rng.uniform(0.1, 1, size=n) - 1e-3
             hi = t + np.abs(t) * rng.uniform(0, 1, size=n) * (rng.random(n) < 0.5)      # often exactly on the upper bound
             hi = np.where(hi <= lo, lo + 1.0, hi)
+            on_lower = rng.random(n) < 0.4                                             # ... or exactly on the lower bound (of either sign)
+            lo = np.where(on_lower, t, lo)
+            hi = np.where(on_lower, t + np.abs(t) * rng.uniform(0.1, 1, size=n) + 1e-3, hi)
             kw["bounds"] = (lo, hi)
         log = []
         post = LinPost(g, 0.7, log)
